@@ -20,13 +20,14 @@ THEOREMS = {
     'C12': ['C12.C12_frame', 'C12.C12_frame_program', 'C12.C12_answers', 'C05.C12_readonly_refuses'],
     'C13': ['C13.crit_iff', 'C13.C13_prefilter_sound', 'C13.C13_exact', 'C13.C13_uid_equiv', 'C13.C13_algebra', 'C13.C13_set_semantics'],
     'C14': ['C14.C14_conservation', 'C14.C14_move_loses_as_found', 'C14.C14_multiappend_atomic_full_false',
-            'C14.C14_multiappend_atomic_partial'],
+            'C14.C14_multiappend_atomic_partial', 'C14.C14_client_cancel', 'C14.C14_append_all', 'C14.client_cancel_as_seeded'],
     'C15': ['C15.C15_prefix', 'C15.C15_full', 'C15.C15_recover', 'C15.C15_crash_anywhere',
             'C15.C15_next_monotone', 'C15.C15_next_monotone_recover', 'C15.C15_append_uid_fresh'],
     'C16': ['C16.C16_no_lost_wakeup', 'C16.C16_progress', 'C16.C16_lost_wakeup_as_found', 'C16.C16_done', 'C16.C16_only_done'],
-    'C17': ['C17.C17_at_most_one', 'C17.C17_first_rw_gets_it', 'C17.C17_not_stored_after'],
+    'C17': ['C17.C17_at_most_one', 'C17.C17_first_rw_gets_it', 'C17.C17_not_stored_after', 'C18.C18_flag_case_insensitive'],
     'C18': ['C18.C18_roundtrip_quoted', 'C18.C18_roundtrip_number', 'C18.C18_modutf7', 'C18.C18_encode_ascii', 'C18.C18_framing', 'C18.C18_astring_spelling',
-            'C18.C18_zone_roundtrip', 'C18.C18_zone_canonical', 'C18.C18_seqset_roundtrip'],
+            'C18.C18_zone_roundtrip', 'C18.C18_zone_canonical', 'C18.C18_seqset_roundtrip',
+            'C18.C18_flag_norm_idem', 'C18.C18_flag_case_insensitive', 'C18.C18_flag_keyword'],
     'C19': ['C19.C19_gate', 'C19.C19_wf', 'C19.C19_put_get', 'C19.C19_put_frame', 'C19.C19_list', 'C19.C19_delete_active',
             'C19.C19_delete', 'C19.C19_rename', 'C19.C19_isolation',
             'C19.C19_single_put_get', 'C19.C19_single_refused_unchanged', 'C19.C19_single_reads', 'C19.C19_single_no_ghosts', 'C19.single_delete_active_as_found'],
